@@ -1,6 +1,6 @@
 """C14 - rejected documents get errors at the right place with the right expectation."""
 from . import parser_rules as pr, error_rules as er, line_rules as lr, dialect_rules as dr, builder_rules as br
-from . import misc_rules as ms
+from . import misc_rules as ms, matcher_rules as mr
 
 META = {
     "level": "other",
@@ -30,6 +30,11 @@ def run(rep):
     lr.rule_tags(rep, "C14.tagfault")
     dr.rule_header(rep, "C14.langfault", snapshot=True)
     br.rule_rect(rep, "C14.ragged")
+    # whether a table is ragged is a question about the cells the splitter made of each row (a pipe taken for an escaped one
+    # merges two cells: a well-formed table is reported, a ragged one is not) and about those cells reaching the token
+    lr.rule_split(rep, "C14.split", "C14.col")
+    lr.rule_split_init(rep, "C14.cells")
+    mr.rule_token_table(rep, "C14.row", "C14.rowcol")
     lr.rule_scanner(rep, "C14.line", "C14.scan")
     lr.rule_token(rep, "C14.token")
     # which dialect names are unknown is decided by Dialect.for_name against the table; the expectation after a tag line
